@@ -56,67 +56,86 @@ def run(ctx):
 
     # ---- close: flush before OK
     close = P.fn("carquet_writer_close", FW)
-    magic = close.calls("write_magic")
-    if len(magic) != 1:
-        raise AnalysisBroken("carquet_writer_close: expected one write_magic call")
+    # abstract execution of close with a failure injected at each step in turn (the writer's own steps,
+    # the metadata serialiser and stdio are hooked): the emission order is header, row group, metadata,
+    # metadata bytes, length, magic, flush, close; a failing step stops the emission, the stream is still
+    # closed, and the status is non-OK exactly when a step failed. Helpers (write_footer), goto cleanup
+    # or a status chain make no difference.
+    from ..rules import sem
+    for anchor in ("ensure_header_written", "flush_row_group", "build_file_metadata", "write_magic"):
+        P.fn(anchor, FW)
+    wo_ = sem.field_offsets(P, "carquet_writer")
+    bo_ = sem.field_offsets(P, "carquet_buffer")
+    STEPS = ["ensure_header_written", "flush_row_group", "build_file_metadata", "parquet_write_file_metadata",
+             "fwrite-metadata", "fwrite-length", "write_magic", "fflush", "fclose"]
+    verd = {"close-order": None, "close-flush": None, "close-fold": None, "close-stop": None}
+    nscen = 0
+    try:
+        for owns in (1, 0):
+            for fail in [None] + STEPS:
+                if fail == "fclose" and not owns:
+                    continue
+                nscen += 1
+                heap0 = {("fw", wo_["file"]): sem.Ptr("FILE", 0, 1), ("fw", wo_["owns_file"]): owns,
+                         ("fw", wo_["columns"]): 0, ("fw", wo_["num_columns"]): 0, ("fw", wo_["current_row_group"]): 0,
+                         ("fw", wo_["column_values_written"]): 0, ("fw", wo_["row_groups"]): 0, ("fw", wo_["path"]): 0}
 
-    def is_flush(e):
-        if e.k == "CallExpr" and e.callee in ("fflush", "fclose"):
-            use, _ = R.classify_use(e)
-            return use in ("tested", "returned", "stored-local", "stored-object")
-        return False
+                def step(name, okv=0, badv=5):
+                    def h(ev, a, it, name=name):
+                        ev.append(name)
+                        return badv if fail == name else okv
+                    return h
 
-    def cut_error(B, si):
-        # leave paths on which the status is known non-OK: true arm of `status != CARQUET_OK`
-        if B.cond is None:
-            return False
-        t = Canon(close, inline=False)(B.cond)
-        if t[0] == "bin" and t[1] == "!=" and ("int", 0) in (t[2], t[3]):
-            return si == 0
-        if t[0] == "bin" and t[1] == "==" and ("int", 0) in (t[2], t[3]):
-            return si == 1
-        return False
-    w = close.cfg.where()
-    b, idx = w[magic[0].i]
-    path = reaches_exit_avoiding(close.cfg, is_flush, cut_error, (b, idx + 1))
-    ctx.ob("R6.must-pass", "close-flush|%s:carquet_writer_close" % FW, P.where(magic[0]),
-           "after the trailing magic every OK path of close passes a checked fflush/fclose before returning",
-           path is None, "path: %s" % describe_path(close, close.cfg, path) if path else "")
-    # failing flush/close changes the returned status
-    for call in close.calls("fflush", "fclose"):
-        use, node = R.classify_use(call)
-        key = "close-fold|%s:carquet_writer_close|%s" % (FW, call.callee)
-        folded = False
-        if use == "tested":
-            # the guarded statement assigns a non-OK constant to the returned status
-            ifs = None
-            for a in call.ancestors():
-                if a.k == "IfStmt":
-                    ifs = a
-                    break
-            if ifs is not None:
-                kids = [x for x in ifs.c if x is not None]
-                for s in kids[1].walk():
-                    if s.k == "BinaryOperator" and s.op == "=" and s.c[1].cv not in (0, None):
-                        folded = True
-                    if s.k == "ReturnStmt" and s.c and s.c[0].cv not in (0, None):
-                        folded = True
-        ctx.ob("R1.stdio", key, P.where(call),
-               "a failing %s in close makes the returned status non-OK" % call.callee, folded, use)
-    # the order of emission in close
-    seq = ["ensure_header_written", "flush_row_group", "build_file_metadata",
-           "parquet_write_file_metadata", "fwrite", "write_magic"]
-    prev = None
-    for name in seq:
-        cs = close.calls(name)
-        if not cs:
-            raise AnalysisBroken("carquet_writer_close no longer calls " + name)
-        cur = cs[0]
-        if prev is not None:
-            ctx.ob("R6.order", "close-order|%s:carquet_writer_close|%s" % (FW, name), P.where(cur),
-                   "%s is executed on every path before %s" % (prev.callee, name),
-                   close.cfg.node_dominates(prev, cur))
-        prev = cur
+                def ser(ev, a, it):
+                    ev.append("parquet_write_file_metadata")
+                    if isinstance(a[1], sem.Ptr):
+                        it.heap[(a[1].base, a[1].off + bo_["size"])] = 55
+                        it.heap[(a[1].base, a[1].off + bo_["data"])] = sem.Ptr("mdbytes", 0, 1)
+                    return 5 if fail == "parquet_write_file_metadata" else 0
+
+                def fw_(ev, a, it):
+                    nm = "fwrite-metadata" if a[2] == 55 and getattr(a[0], "base", None) == "mdbytes" else \
+                        "fwrite-length" if a[2] == 4 else "fwrite-other(%s)" % (a[2],)
+                    ev.append(nm)
+                    return (a[2] - 1) if fail == nm and isinstance(a[2], int) else a[2]
+
+                def binit(ev, a, it):
+                    if isinstance(a[0], sem.Ptr):
+                        it.heap[(a[0].base, a[0].off + bo_["size"])] = 0
+                        it.heap[(a[0].base, a[0].off + bo_["data"])] = 0
+                hooks = {"ensure_header_written": step("ensure_header_written"), "flush_row_group": step("flush_row_group"),
+                         "build_file_metadata": step("build_file_metadata"), "write_magic": step("write_magic"),
+                         "parquet_write_file_metadata": ser, "fwrite": fw_,
+                         "fflush": step("fflush", 0, -1), "fclose": step("fclose", 0, -1),
+                         "carquet_buffer_init": binit, "carquet_buffer_destroy": lambda ev, a, it: None,
+                         "free": lambda ev, a, it: None, "carquet_arena_destroy": lambda ev, a, it: None,
+                         "carquet_row_group_writer_destroy": lambda ev, a, it: None}
+                ret, ev, heap = sem.run(P, close, [sem.Ptr("fw", 0, 1)], heap0=heap0, hooks=hooks, single=True, max_forks=64)
+                emit = STEPS[:8]
+                upto = emit if fail in (None, "fclose") else emit[:emit.index(fail) + 1]
+                want = list(upto) + (["fclose"] if owns else [])
+                sc = "owns_file=%d, %s" % (owns, "no failure" if fail is None else fail + " fails")
+                if fail is None and ev != want and verd["close-order"] is None:
+                    verd["close-order"] = "%s: steps %s" % (sc, ev)
+                if fail is not None and ev != want and verd["close-stop"] is None:
+                    verd["close-stop"] = "%s: steps %s, expected %s" % (sc, ev, want)
+                if fail is None and ret != 0 and verd["close-fold"] is None:
+                    verd["close-fold"] = "%s: returns %s" % (sc, ret)
+                if fail in ("fflush", "fclose") and (not isinstance(ret, int) or ret == 0) and verd["close-flush"] is None:
+                    verd["close-flush"] = "%s: returns %s" % (sc, ret)
+                if fail not in (None, "fflush", "fclose") and (not isinstance(ret, int) or ret == 0) and verd["close-fold"] is None:
+                    verd["close-fold"] = "%s: returns %s" % (sc, ret)
+        what = {"close-order": "close emits header, pending row group, metadata, metadata bytes, 4-byte length, magic, then flushes and closes the stream, in that order",
+                "close-stop": "a failing step ends the emission (nothing is written after it) and the stream is still closed",
+                "close-flush": "after the trailing magic a failing fflush/fclose makes the returned status non-OK",
+                "close-fold": "close returns OK exactly when no step failed"}
+        for k_, msg in verd.items():
+            ctx.ob("R6.must-pass" if k_ != "close-order" else "R6.order", "%s|%s:carquet_writer_close" % (k_, FW), P.where(close.body),
+                   what[k_] + " (%d failure scenarios, abstract execution)" % nscen, msg is None, msg or "")
+    except (sem.Inconclusive, KeyError) as ex:
+        ctx.inconclusive("R6.must-pass", "close-trace|%s:carquet_writer_close" % FW, P.where(close.body),
+                         "abstract execution of close", "%s: %s" % (type(ex).__name__, ex))
+    ctx.floor("C18 close failure scenarios", nscen, 15)
 
     # ---- open paths: validation gates parsing (abstract execution over file sizes x magic outcomes x
     # footer lengths; the byte comparisons and the length read are hooked, contents stay unknown)
